@@ -64,7 +64,7 @@ class Language(BaseLanguage):
             std_includes.append("stdlib.h")
             # we always include stdlib if standard types are in use since initializers
             # require the use of NULL
-            if dep_types.uses_integer:
+            if dep_types.uses_integer or dep_types.uses_boolean_static_array or dep_types.uses_variable_length_array:
                 std_includes.append("stdint.h")
             if dep_types.uses_bool:
                 std_includes.append("stdbool.h")
